@@ -6,7 +6,11 @@ D=$(realpath "$1"); P=$2; T=${3:-quick}
 cd /verif
 git -C /repo diff --quiet || { echo "/repo is dirty"; exit 2; }
 git -C /repo apply "$D/patch.diff" || { echo "PATCH-DOES-NOT-APPLY"; exit 2; }
+# evidence/<P>.json must keep describing the UNCHANGED tree: save it and put it back afterwards
+[ -f evidence/$P.json ] && cp evidence/$P.json .work/evidence_$P.saved
 ./check "$P" "$T" > "$D/check_$P.log" 2>&1; rc=$?
 git -C /repo checkout -q -- .
+[ -f .work/evidence_$P.saved ] && mv .work/evidence_$P.saved evidence/$P.json
+rm -rf replays/$P
 grep -E '^VIOLATION|^FAIL|^KNOWN' "$D/check_$P.log" | cut -c1-400
 echo "exit=$rc"
